@@ -31,15 +31,15 @@ S_Big == {<<R(7, 0), R(5, 1)>>, <<R(8, 0), R(6, 0), R(5, 1), R(4, 2)>>, <<R(6, 0
           <<R(9, 0), R(4, 1), R(5, 1), R(3, 1)>>, <<R(5, 0), R(6, 0), R(7, 0)>>, <<R(12, 0), R(9, 1)>>}
 
 \* model-checking families
-S_MCQ2  == S_Hole33 \cup S_Two33
+S_MCQ2  == S_Hole33
 S_MCT2  == S_Hole33
 S_MCT2b == S_Hole43 \cup S_Hole34
 S_MCT3  == S_Two33 \cup S_Two34
 S_MCT4  == S_Two33H1 \cup S_One4HH
 S_SameQ == S_One3 \cup S_One4 \cup S_Hole33
 S_SameT == S_One \cup S_Hole33
-S_Live  == S_One3 \cup S_Hole33
+S_Live  == S_One \cup S_Hole33
 S_LiveQ == S_One3 \cup S_One4
 S_SpaceA == S_One3 \cup S_One4
-S_SpaceB == S_Hole33 \cup S_Hole43 \cup S_One4HH
+S_SpaceB == S_Hole33 \cup S_Hole43
 =============================================================================
